@@ -492,7 +492,7 @@ def check_op(case, op, o):
         if name in ("ExtractWithLabels", "ExtractWithoutLabels") and not case["cs"]:
             taxa = label_taxa(case, op[1], True)
             alt_keepl = (lambda nd: nd["taxon"] in taxa) if name == "ExtractWithLabels" else (lambda nd: nd["taxon"] not in taxa)
-            if py_restrict(spec, alt_keepl, ex["keepi"], ex["keepe"], True) is None:
+            if py_restrict(spec, alt_keepl, ex["keepi"], ex["keepe"], ex["sup"]) is None:
                 return ("%s: labels are matched case-sensitively by the extract_* methods although the namespace "
                         "is case-insensitive (the in-place methods match %s); here nothing matched and %s was raised"
                         % (tag, sorted(label_taxa(case, op[1], False)), o["exc"]), "extract-labels-case-sensitive")
@@ -525,7 +525,7 @@ def check_op(case, op, o):
             alt = dict(ex)
             taxa = label_taxa(case, op[1], True)
             alt_keepl = (lambda nd: nd["taxon"] in taxa) if name == "ExtractWithLabels" else (lambda nd: nd["taxon"] not in taxa)
-            w2 = py_restrict(spec, alt_keepl, ex["keepi"], ex["keepe"], True)
+            w2 = py_restrict(spec, alt_keepl, ex["keepi"], ex["keepe"], ex["sup"])
             if w2 is not None and gotc == canon_spec(w2):
                 return ("%s: labels are matched case-sensitively by the extract_* methods although the namespace "
                         "is case-insensitive (the in-place methods match %s)" % (tag, sorted(label_taxa(case, op[1], False))),
@@ -549,9 +549,14 @@ def check_op(case, op, o):
                 return ("%s: surviving leaves %s, expected %s" % (tag, gl, wl), "wrong-leaves:" + name)
             if splits(got) != splits(want):
                 return ("%s: bipartitions of the result differ from those of the induced tree" % tag, "wrong-splits:" + name)
-            if not ex["sup"] and has_unifurcation(want) and not has_unifurcation(got):
-                return ("%s: suppress_unifurcations=False declined, but update_bipartitions=True suppressed the "
-                        "unifurcations anyway" % tag, "update-bipartitions-overrides-declined-suppression")
+            uw = sorted(n["id"] for n in trees.preorder(want) if len(n["kids"]) == 1)
+            ug = sorted(n["id"] for n in trees.preorder(got) if len(n["kids"]) == 1)
+            if not ex["sup"] and uw != ug:
+                return ("%s: suppress_unifurcations=False declined, but update_bipartitions=True suppressed "
+                        "unifurcations anyway (kept %s, expected %s)" % (tag, ug, uw),
+                        "update-bipartitions-overrides-declined-suppression")
+            if ex["sup"] and ug:
+                return ("%s: unifurcations %s left although suppression was requested" % (tag, ug), "not-suppressed:" + name)
         else:
             return ("%s: result %s is not the induced subtree %s" % (tag, trees.newick(got), trees.newick(want)),
                     "not-induced:" + name)
